@@ -539,6 +539,34 @@ def _(L, fx):
     return len(box[-1].events) if rc == CIF_OK and box else None
 
 
+# ---- insertions that find a list's element array full (capacities 4, 8, 12), and a value whose serialised form makes the
+# write buffer grow several times
+
+def _full_list_op(n):
+    @op('cif_value_insert_element_at:list-of-%d' % n)
+    def _(L, fx):
+        lst = L.value_create(KIND_LIST)[1]
+        for j in range(n):
+            if L.call('cif_value_insert_element_at', lst, j, fx.v_char) != CIF_OK:
+                raise HarnessError('building the list')
+        fx.extra.append(('value', lst))
+        rc = yield (lambda: L.call('cif_value_insert_element_at', lst, n, fx.v_numb))
+        return (rc == CIF_OK, L.read_value(lst))
+
+
+for _n in (4, 8, 12):
+    _full_list_op(_n)
+
+
+@op('cif_container_set_value:long-list')
+def _(L, fx):
+    big = L.make_value(('list', tuple(('char', 'element %d of a list long enough to outgrow the buffer' % j, True) for j in range(120))))
+    fx.extra.append(('value', big))
+    name = U('_long_list')
+    rc = yield (lambda: L.call('cif_container_set_value', fx.b2, name, big))
+    return None
+
+
 # ---- the insertion at which a map's hash table grows ------------------------------------------------------------------
 # (the bucket array is reallocated only after a couple of hundred entries; which insertion does it is found by counting
 # allocations on a scratch map, then the real map is brought to the state just before it)
